@@ -14,11 +14,11 @@ let split c s = String.split_on_char c s
 let nonempty l = List.filter (fun s -> s <> "") l
 
 (* ---------------------------------------------------------------- scenario *)
-type scen = { w : int; jobs : (int * string list) list; cls : string list list; mops : string list; sp : bool }
+type scen = { w : int; jobs : (int * string list) list; cls : string list list; mops : string list; sp : bool; init : int }
 
 let parse_ops s = if s = "-" || s = "" then [] else nonempty (split '.' s)
 let parse_scen (s : string) : scen =
-  let sc = ref { w = 1; jobs = []; cls = []; mops = []; sp = false } in
+  let sc = ref { w = 1; jobs = []; cls = []; mops = []; sp = false; init = -1 } in
   List.iter (fun tok ->
     match String.index_opt tok '=' with
     | None -> failwith ("bad scenario token " ^ tok)
@@ -33,24 +33,34 @@ let parse_scen (s : string) : scen =
        | "C" -> if v <> "-" then sc := { !sc with cls = List.map parse_ops (split ';' v) }
        | "M" -> sc := { !sc with mops = parse_ops v }
        | "sp" -> sc := { !sc with sp = (v <> "0") }
-       | "st" | "seed" | "ch" -> ()
+       | "init" -> sc := { !sc with init = int_of_string v }
+       | "st" | "seed" | "ch" | "dflt" -> ()
        | _ -> failwith ("bad scenario key " ^ k)))
     (nonempty (split ' ' s));
   !sc
 
 let num s = int_of_string (String.sub s 1 (String.length s - 1))
+(* operations without a model event (size(), thread(i)) or observed against the model state (idle(), has_idle()) are not
+   part of the model's client programs; job-kind markers and the throw marker do not change a job's event sequence *)
 let cop_of s = match s.[0] with
-  | 'e' -> CEnq (nat_of_int (num s)) | 'L' -> CLoopEmpty | 'T' -> CLoopTerm | 'X' -> CTerminate | 'D' -> CDone
+  | 'e' -> Some (CEnq (nat_of_int (num s))) | 'L' -> Some CLoopEmpty | 'T' -> Some CLoopTerm | 'X' -> Some CTerminate | 'D' -> Some CDone
+  | 'S' | 'I' | 'H' | 'R' -> None
   | _ -> failwith ("bad cop " ^ s)
-let jop_of s = match s.[0] with 'e' -> JEnq (nat_of_int (num s)) | 't' -> JTerm | _ -> failwith ("bad jop " ^ s)
+let jop_of s = match s.[0] with
+  | 'e' -> Some (JEnq (nat_of_int (num s))) | 't' -> Some JTerm
+  | 'x' | 'F' | 'B' | 'c' -> None
+  | _ -> failwith ("bad jop " ^ s)
+let has_cont (sc : scen) = List.exists (fun (_, ops) -> List.exists (fun o -> o.[0] = 'c') ops) sc.jobs
+let job_has_token (sc : scen) j = match List.assoc_opt j sc.jobs with
+  | Some (o :: _) when o = "F" || o = "B" -> false | _ -> true
 
 let config_of (sc : scen) : config =
   let tbl = Hashtbl.create 16 in
-  List.iter (fun (j, ops) -> Hashtbl.replace tbl j (List.map jop_of ops)) sc.jobs;
+  List.iter (fun (j, ops) -> Hashtbl.replace tbl j (List.filter_map jop_of ops)) sc.jobs;
   { nworkers = nat_of_int sc.w;
     jobprog = (fun j -> match Hashtbl.find_opt tbl (int_of_nat j) with Some l -> l | None -> []);
-    clients = List.map (List.map cop_of) sc.cls;
-    mainops = List.map cop_of sc.mops }
+    clients = List.map (List.filter_map cop_of) sc.cls;
+    mainops = List.filter_map cop_of sc.mops }
 
 (* ---------------------------------------------------------------- events *)
 exception Unparsable of string
@@ -60,8 +70,11 @@ let nat_arg s = let v = try int_of_string s with _ -> raise (Unparsable s) in
 let cv_of = function "c0" -> CJ | "c1" -> CF | s -> raise (Unparsable s)
 let av_of = function "a0" -> ABusy | "a1" -> AIdle | "a2" -> ADone | "a3" -> ATerm | s -> raise (Unparsable s)
 
-(* tokens -> (token index, tid, event) list; U:m0 followed by the LER note of the same thread is one event *)
-let events_of (toks : string array) : (int * int * ev) list =
+(* tokens -> (token index, tid, action) list; U:m0 followed by the LER note of the same thread is one event.
+   Harness-only observations (CD, IT, SZ, THR, yields of the init hook) have no counterpart in the LTS and are skipped here
+   (the direct checker below examines them); idle()/has_idle() = a load of idle_ by a client, compared with the model's idle. *)
+type action = Ev of ev | ObsIdle of int
+let events_of (toks : string array) : (int * int * action) list =
   let n = Array.length toks in
   let out = ref [] in
   let i = ref 0 in
@@ -71,36 +84,40 @@ let events_of (toks : string array) : (int * int * ev) list =
     (match parts with
      | tid :: rest ->
        let t = (try int_of_string tid with _ -> raise (Unparsable tok)) in
+       let next_is tags = !i + 1 < n && (match split ':' toks.(!i + 1) with
+           | [tid2; "US"; tg; _; _] -> tid2 = tid && List.mem tg tags | _ -> false) in
        let e =
          (try match rest with
-          | ["L"; "m0"] -> Some ELock
+          | ["L"; "m0"] -> Some (Ev ELock)
           | ["U"; "m0"] ->
             if !i + 1 < n then
               (match split ':' toks.(!i + 1) with
-               | [tid2; "US"; "LER"; a; _] when tid2 = tid -> incr i; Some (EUnlockR (nat_arg a))
-               | _ -> Some EUnlock)
-            else Some EUnlock
-          | ["WB"; c; "m0"] -> Some (EWB (cv_of c))
-          | ["WE"; c; "m0"] -> Some (EWE (cv_of c, false))
-          | ["WE"; c; "m0"; "spurious"] -> Some (EWE (cv_of c, true))
-          | ["N1"; c; "-"] -> Some (EN1 (cv_of c, None))
-          | ["N1"; c; u] -> Some (EN1 (cv_of c, Some (nat_arg u)))
-          | ["NA"; c] -> Some (ENA (cv_of c))
-          | ["AL"; a; v] -> Some (EAL (av_of a, nat_arg v))
-          | ["AS"; a; v] -> Some (EAS (av_of a, nat_arg v))
-          | ["AR"; a; o; nn] -> Some (EAR (av_of a, nat_arg o, nat_arg nn))
-          | ["SP"; u] -> Some (ESpawn (nat_arg u))
-          | ["J"; u] -> Some (EJoin (nat_arg u))
-          | ["END"] -> Some EEnd
-          | ["US"; "JS"; a; _] -> Some (EUser (UJS, nat_arg a))
-          | ["US"; "JE"; a; _] -> Some (EUser (UJE, nat_arg a))
-          | ["US"; "ENQ"; a; _] -> Some (EUser (UENQ, nat_arg a))
-          | ["US"; "LE"; a; _] -> Some (EUser (ULE, nat_arg a))
-          | ["US"; "LT"; a; _] -> Some (EUser (ULT, nat_arg a))
-          | ["US"; "TERM"; a; _] -> Some (EUser (UTERM, nat_arg a))
-          | _ -> None
-          with Unparsable _ -> None) in
-       (match e with Some e -> out := (!i, t, e) :: !out | None -> raise (Unparsable tok))
+               | [tid2; "US"; "LER"; a; _] when tid2 = tid -> incr i; Some (Ev (EUnlockR (nat_arg a)))
+               | _ -> Some (Ev EUnlock))
+            else Some (Ev EUnlock)
+          | ["WB"; c; "m0"] -> Some (Ev (EWB (cv_of c)))
+          | ["WE"; c; "m0"] -> Some (Ev (EWE (cv_of c, false)))
+          | ["WE"; c; "m0"; "spurious"] -> Some (Ev (EWE (cv_of c, true)))
+          | ["N1"; c; "-"] -> Some (Ev (EN1 (cv_of c, None)))
+          | ["N1"; c; u] -> Some (Ev (EN1 (cv_of c, Some (nat_arg u))))
+          | ["NA"; c] -> Some (Ev (ENA (cv_of c)))
+          | ["AL"; "a1"; v] when next_is ["IDLE"; "HAS"] -> incr i; Some (ObsIdle (int_of_string v))
+          | ["AL"; a; v] -> Some (Ev (EAL (av_of a, nat_arg v)))
+          | ["AS"; a; v] -> Some (Ev (EAS (av_of a, nat_arg v)))
+          | ["AR"; a; o; nn] -> Some (Ev (EAR (av_of a, nat_arg o, nat_arg nn)))
+          | ["SP"; u] -> Some (Ev (ESpawn (nat_arg u)))
+          | ["J"; u] -> Some (Ev (EJoin (nat_arg u)))
+          | ["END"] -> Some (Ev EEnd)
+          | ["US"; "JS"; a; _] -> Some (Ev (EUser (UJS, nat_arg a)))
+          | ["US"; "JE"; a; _] -> Some (Ev (EUser (UJE, nat_arg a)))
+          | ["US"; "ENQ"; a; _] -> Some (Ev (EUser (UENQ, nat_arg a)))
+          | ["US"; "LE"; a; _] -> Some (Ev (EUser (ULE, nat_arg a)))
+          | ["US"; "LT"; a; _] -> Some (Ev (EUser (ULT, nat_arg a)))
+          | ["US"; "TERM"; a; _] -> Some (Ev (EUser (UTERM, nat_arg a)))
+          | ["US"; ("CD" | "IT" | "SZ" | "THR"); _; _] | ["Y"] -> None
+          | _ -> raise (Unparsable tok)
+          with Unparsable _ -> raise (Unparsable tok)) in
+       (match e with Some e -> out := (!i, t, e) :: !out | None -> ())
      | [] -> ());
     incr i
   done;
@@ -112,10 +129,17 @@ type dstate = {
   mutable enq : int list;                (* jobs whose enqueue() has taken the lock and pushed *)
   mutable js : int list; mutable je : int list;
   mutable donev : int; mutable termd : bool; mutable lers : int; mutable bad : string list;
-  mutable lastcall : (int * string) list (* thread -> LE | LT *)
+  mutable lastcall : (int * string) list; (* thread -> LE | LT *)
+  mutable jsby : (int * int) list;       (* job -> thread that ran it *)
+  mutable cd : int list;                 (* jobs whose closure token has been destroyed *)
+  mutable holder : int;                  (* thread holding mutex_ (-1 = free), from the L/U/WB/WE events *)
+  mutable busyv : int;
+  mutable its : (int * int) list         (* worker thread -> argument of its InitThread hook call *)
 }
-let direct_check (toks : string array) : dstate =
-  let d = { pend = []; enq = []; js = []; je = []; donev = 0; termd = false; lers = 0; bad = []; lastcall = [] } in
+let direct_check (sc : scen) (toks : string array) : dstate =
+  let d = { pend = []; enq = []; js = []; je = []; donev = 0; termd = false; lers = 0; bad = []; lastcall = [];
+            jsby = []; cd = []; holder = -1; busyv = 0; its = [] } in
+  let locked_before = Hashtbl.create 8 in
   let enqcount = Hashtbl.create 16 in
   Array.iter (fun tok -> match split ':' tok with
       | [_; "US"; "ENQ"; a; _] -> Hashtbl.replace enqcount a (1 + (try Hashtbl.find enqcount a with Not_found -> 0))
@@ -127,15 +151,45 @@ let direct_check (toks : string array) : dstate =
     | [tid; "L"; "m0"] ->
       (* enqueue(): the lock after the ENQ note; jobs_.emplace_back follows atomically (no scheduling point) *)
       let t = int_of_string tid in
+      d.holder <- t; Hashtbl.replace locked_before t true;
       (match List.assoc_opt t d.pend with
        | Some j -> d.enq <- j :: d.enq; d.pend <- List.remove_assoc t d.pend
        | None -> ())
+    | [_; "U"; "m0"] | [_; "WB"; _; "m0"] -> d.holder <- -1
+    | tid :: "WE" :: _ -> d.holder <- int_of_string tid
+    | [_; "AR"; "a0"; _; nn] -> d.busyv <- int_of_string nn
+    | [tid; "US"; "CD"; a; _] ->
+      let t = int_of_string tid and j = int_of_string a in
+      if List.mem j d.cd then flag (Printf.sprintf "closure of job %d destroyed twice (token %d)" j idx);
+      d.cd <- j :: d.cd;
+      (match List.assoc_opt j d.jsby with
+       | Some w ->
+         if w <> t then flag (Printf.sprintf "closure of job %d destroyed by thread %d, not by the worker %d that ran it (token %d)" j t w idx);
+         if not (List.mem j d.je) then flag (Printf.sprintf "closure of job %d destroyed before its body ended (token %d)" j idx)
+       | None -> ());
+      if d.holder = t then flag (Printf.sprintf "closure of job %d destroyed while thread %d holds the pool mutex (token %d)" j t idx)
+    | [tid; "US"; "IT"; a; _] ->
+      let t = int_of_string tid and pp = int_of_string a in
+      if List.mem_assoc t d.its then flag (Printf.sprintf "InitThread hook called twice in worker thread %d" t);
+      if pp <> t - 1 then flag (Printf.sprintf "InitThread hook of worker thread %d got index %d" t pp);
+      if Hashtbl.mem locked_before t then flag (Printf.sprintf "InitThread hook of worker thread %d ran after the worker loop started" t);
+      d.its <- (t, pp) :: d.its
+    | [_; "US"; "SZ"; a; _] -> if int_of_string a <> sc.w then flag (Printf.sprintf "size() = %s, pool has %d threads" a sc.w)
+    | [_; "US"; "THR"; a; _] -> if a <> "1" then flag "thread(i) does not return the i-th worker thread"
+    | [tid; "US"; "HAS"; a; _] ->
+      (match (if idx > 0 then split ':' toks.(idx - 1) else []) with
+       | [tid2; "AL"; "a1"; v] when tid2 = tid -> if (a = "1") <> (int_of_string v <> 0) then flag (Printf.sprintf "has_idle() = %s but idle_ = %s" a v)
+       | _ -> flag "has_idle() did not load idle_")
+    | [tid; "US"; "IDLE"; a; _] ->
+      (match (if idx > 0 then split ':' toks.(idx - 1) else []) with
+       | [tid2; "AL"; "a1"; v] when tid2 = tid -> if a <> v then flag (Printf.sprintf "idle() = %s but idle_ = %s" a v)
+       | _ -> flag "idle() did not load idle_")
     | [_; "US"; "JS"; a; _] ->
       let j = int_of_string a in
       if not (List.mem j d.enq) then flag (Printf.sprintf "job %d started but never enqueued (token %d)" j idx);
       if List.mem j d.js && (try Hashtbl.find enqcount a with Not_found -> 0) <= 1 then
         flag (Printf.sprintf "job %d executed more than once (token %d)" j idx);
-      d.js <- j :: d.js
+      d.js <- j :: d.js; d.jsby <- (j, (match split ':' tok with tid :: _ -> int_of_string tid | [] -> -1)) :: d.jsby
     | [_; "US"; "JE"; a; _] -> d.je <- int_of_string a :: d.je
     | [_; "AR"; "a2"; _; nn] -> d.donev <- int_of_string nn
     | [_; "US"; "TERM"; _; _] -> d.termd <- true
@@ -148,7 +202,10 @@ let direct_check (toks : string array) : dstate =
                     flag (Printf.sprintf "loop_until_empty returned at token %d but enqueued job %d has not finished" idx j)) d.enq;
       if n <> nje then flag (Printf.sprintf "loop_until_empty returned at token %d: caller sees %d job effects, %d jobs ended" idx n nje);
       if d.donev <> nje then flag (Printf.sprintf "loop_until_empty returned at token %d: done()=%d but %d jobs ended" idx d.donev nje);
-      if nje <> List.length d.enq then flag (Printf.sprintf "loop_until_empty returned at token %d: %d ended, %d enqueued" idx nje (List.length d.enq))
+      if nje <> List.length d.enq then flag (Printf.sprintf "loop_until_empty returned at token %d: %d ended, %d enqueued" idx nje (List.length d.enq));
+      if not d.termd then
+        List.iter (fun j -> if job_has_token sc j && not (List.mem j d.cd) then
+                      flag (Printf.sprintf "loop_until_empty returned at token %d but the closure of finished job %d has not been destroyed" idx j)) d.je
     | _ -> ()) toks;
   d
 
@@ -177,6 +234,9 @@ let impl_rest (toks : string array) (d : dstate) (state : (string * int) list) (
       | 1, _ -> res := Printf.sprintf "LOCK@%d" id :: !res
       | _, _ -> res := Printf.sprintf "RUNNABLE@%d" id :: !res
     end) threads;
+  let running = List.length d.js - List.length d.je in
+  if busy <> running then res := Printf.sprintf "BUSY=%d-but-%d-jobs-running" busy running :: !res
+  else if running = 0 && g "done" <> List.length d.je then res := Printf.sprintf "DONE=%d-but-%d-jobs-ended" (g "done") (List.length d.je) :: !res;
   if !res = [] then "legit" else "stranded:" ^ String.concat "," (List.sort compare !res)
 
 let model_rest (s : state) : string =
@@ -229,20 +289,32 @@ let () =
               let st = ref (init cfg) in
               let verdict = ref "accept" in
               let nev = ref 0 and nspur = ref 0 in
+              if has_cont sc then verdict := "skipped"     (* enqueue from a closure destructor: outside the LTS's job language *)
+              else
               (try
                  let evs = events_of toks in
-                 (try List.iter (fun (idx, t, e) ->
-                      match lstep_gen cfg fx sc.sp !st (nat_of_int t, e) with
-                      | Some s' -> st := s'; incr nev; (match e with EWE (_, true) -> incr nspur | _ -> ())
-                      | None -> verdict := Printf.sprintf "reject@%d:%s" idx toks.(idx); raise Exit) evs
+                 (try List.iter (fun (idx, t, a) ->
+                      match a with
+                      | ObsIdle v ->
+                        if v <> int_of_nat (!st).shr.idle then (verdict := Printf.sprintf "reject@%d:%s(model-idle=%d)" idx toks.(idx) (int_of_nat (!st).shr.idle); raise Exit)
+                      | Ev e ->
+                        match lstep_gen cfg fx sc.sp !st (nat_of_int t, e) with
+                        | Some s' -> st := s'; incr nev; (match e with EWE (_, true) -> incr nspur | _ -> ())
+                        | None -> verdict := Printf.sprintf "reject@%d:%s" idx toks.(idx); raise Exit) evs
                   with Exit -> ())
                with Unparsable tok -> verdict := "unparsable:" ^ tok);
               Buffer.add_string b (Printf.sprintf "%s model=%s" (if is_ok then "OK" else "DEADLOCK") !verdict);
               (* (3) direct checker *)
-              let d = direct_check toks in
+              let d = direct_check sc toks in
               Buffer.add_string b (Printf.sprintf " prop=%s" (if d.bad = [] then "ok" else String.concat ";" (List.map (String.map (fun c -> if c = ' ' then '_' else c)) d.bad)));
               if is_ok then begin
-                if List.length d.js <> List.length d.je then Buffer.add_string b " unfinished-job-at-exit";
+                let fb = ref [] in
+                if List.length d.js <> List.length d.je then fb := "unfinished-job-at-exit" :: !fb;
+                if d.donev <> List.length d.je then fb := Printf.sprintf "final-done_=%d-but-%d-jobs-ended" d.donev (List.length d.je) :: !fb;
+                if d.busyv <> 0 then fb := Printf.sprintf "final-busy_=%d" d.busyv :: !fb;
+                if sc.init >= 0 && List.length d.its <> sc.w then fb := Printf.sprintf "init-hook-calls:%d-of-%d" (List.length d.its) sc.w :: !fb;
+                List.iter (fun j -> if job_has_token sc j && not (List.mem j d.cd) then fb := Printf.sprintf "closure-of-job-%d-never-destroyed" j :: !fb) d.enq;
+                Buffer.add_string b (Printf.sprintf " fin=%s" (if !fb = [] then "ok" else String.concat ";" (List.rev !fb)));
                 let s = !st in
                 if !verdict = "accept" then
                   Buffer.add_string b (Printf.sprintf " final=%s" (match get s.thr O with TM M8 -> "main-done" | _ -> "main-not-done"))
